@@ -36,6 +36,9 @@ ASSUMPTIONS = ["code outside the workspace does not write TreapNode::priority (p
 FIXTURES = [
     ("c16_good_refcell", "good", []),
     ("c16_bad_const_priority", "bad", ["H3"]),
+    ("c16_bad_shift_sizeof", "bad", ["H3"]),
+    ("c16_good_shift_bits", "good", []),
+    ("c16_bad_reset_stream", "bad", ["H4"]),
     ("c16_bad_no_writeback", "bad", ["H4"]),
     ("c16_bad_merge_left_always", "bad", ["H1"]),
     ("c16_bad_fresh_rng_per_node", "bad", ["H4"]),
@@ -129,7 +132,7 @@ def check(col, prog, tier, profile, fixture=None):
     rule_h3b(col, prog, crate, R, gens)
 
     # ---- H4
-    rule_h4(col, prog, "H4", crate=crate, draw_fns=gens)
+    rule_h4(col, prog, "H4", crate=crate, draw_fns=gens, sole_writer=True)
 
 
 def _priority_writers(prog, R):
@@ -209,6 +212,40 @@ def _provenance(col, prog, crate, R):
     return gens
 
 
+CONSTS = {}  # call-result terms with a known constant value (size_of::<T>() ...), filled per analysed body
+
+
+def _const_eval(t):
+    if not isinstance(t, tuple) or not t:
+        return None
+    if t[0] == "int":
+        return t[1]
+    if t in CONSTS:
+        return CONSTS[t]
+    if t[0] == "cast" and t[1] == "IntToInt":
+        return _const_eval(t[3])
+    if t[0] in ("bin", "wbin") and len(t) >= 4:
+        x, y = _const_eval(t[2]), _const_eval(t[3])
+        if x is None or y is None:
+            return None
+        try:
+            return {"Add": x + y, "Sub": x - y, "Mul": x * y, "Shl": x << y if 0 <= y < 128 else None, "Shr": x >> y if 0 <= y < 128 else None, "Div": x // y if y else None, "BitAnd": x & y, "BitOr": x | y}.get(t[1])
+        except Exception:
+            return None
+    return None
+
+
+_SIZES = {"u8": 1, "i8": 1, "bool": 1, "u16": 2, "i16": 2, "u32": 4, "i32": 4, "f32": 4, "char": 4, "u64": 8, "i64": 8, "f64": 8, "usize": 8, "isize": 8, "u128": 16, "i128": 16}
+
+
+def _note_consts(evs):
+    for e in evs:
+        if e.kind == "call" and e.extra.get("name") in ("size_of", "align_of") and "mem::" in str(e.callee):
+            a = (e.fn.get("args") or [None])[0]
+            if a in _SIZES:
+                CONSTS[e.res] = _SIZES[a]
+
+
 def _entropy_bits(t, draw_pred, memo=None):
     """upper bound on the number of raw generator bits that survive in the value t (None = no draw inside)"""
     if not isinstance(t, tuple) or not t:
@@ -220,9 +257,13 @@ def _entropy_bits(t, draw_pred, memo=None):
         b = _entropy_bits(t[3], draw_pred)
         w = {"u8": 8, "i8": 8, "u16": 16, "i16": 16, "u32": 32, "i32": 32, "u64": 64, "i64": 64, "usize": 64, "isize": 64, "u128": 128, "i128": 128}.get(t[2], 64)
         return None if b is None else min(b, w)
-    if h == "bin" and t[1] == "Shr" and t[3][0] == "int":
+    if h == "bin" and t[1] == "Shr":
         b = _entropy_bits(t[2], draw_pred)
-        return None if b is None else max(0, b - t[3][1])
+        k = _const_eval(t[3])
+        if b is None:
+            return None
+        # a shift by an amount the checker cannot evaluate may discard everything
+        return max(0, b - k) if k is not None else 0
     if h == "bin" and t[1] == "BitAnd":
         for x, y in ((t[2], t[3]), (t[3], t[2])):
             if y[0] == "int":
@@ -261,6 +302,7 @@ def rule_h3b(col, prog, crate, R, gens):
             draws = [e for e in st.event_list() if e.kind == "call" and e.extra.get("name") == "next_raw"]
             if not draws:
                 continue
+            _note_consts(st.event_list())
             r = util.ret_term(st)
             rty = b.locals[0]["ty"]
             w = {"u8": 8, "u16": 16, "u32": 32, "u64": 64, "usize": 64}.get(rty, width)
@@ -274,7 +316,7 @@ def rule_h3b(col, prog, crate, R, gens):
                 col.violation("H3", key, b.loc(draws[0].bb), "the priority keeps only %d bits of the generator output although its type holds %d: with 2^%d distinct priorities ties dominate beyond ~2^%d nodes and monotone insertion orders degenerate into chains" % (bits, w, bits, bits))
 
 
-def rule_h4(col, prog, rid, crate=None, draw_fns=None):
+def rule_h4(col, prog, rid, crate=None, draw_fns=None, sole_writer=False):
     """the draw advances persistent state: Cell::get -> next_raw(&mut local) -> Cell::set(local) on the
     same cell on every path, or next_raw applied directly to a persistent place"""
     crate = crate or prog.crate("rlib_treap")
@@ -290,6 +332,8 @@ def rule_h4(col, prog, rid, crate=None, draw_fns=None):
                 draw_fns.append(tgt)
     reach, ext = util.reachable_calls(prog, draw_fns)
     sites = 0
+    accepted = set()   # (body key, bb) of write-backs that belong to a draw
+    cell_tys = set()
     for b in reach.values():
         if b.crate.name != crate.name:
             continue
@@ -323,6 +367,9 @@ def rule_h4(col, prog, rid, crate=None, draw_fns=None):
                 out_val = ("out", e.bb, l)
                 wb = [x for x in sets if x.args[1] == out_val and gets and x.args[0] == gets[-1].args[0]]
                 if gets and wb:
+                    for x in wb:
+                        accepted.add((b.key, x.bb))
+                        cell_tys.add((x.extra.get("argtys") or ["?"])[0])
                     col.ok(rid, loc, key, "get -> next_raw(&mut local) -> set(local) on the same cell")
                 elif not gets:
                     col.violation(rid, key, loc, "the generator passed to next_raw is a fresh local value (%s), not persistent state: every draw returns the same number and all nodes get equal priorities" % tstr(cur))
@@ -330,6 +377,24 @@ def rule_h4(col, prog, rid, crate=None, draw_fns=None):
                     col.violation(rid, key, loc, "the advanced generator state is not stored back to the cell it was loaded from on this path: the next draw repeats the same priority")
     if sites == 0:
         col.violation(rid, "%s|no-draw" % crate.name, "-", "no call of the generator's next_raw is reachable from the priority source")
+    if sole_writer and cell_tys:
+        # nobody else may overwrite the persistent generator state (a rewind replays old priorities)
+        for b in crate.bodies:
+            for bb, t in b.calls():
+                fn = t["fn"]
+                if "indirect" in fn or fn.get("name") not in ("set", "replace", "swap", "take"):
+                    continue
+                if "Cell" not in (fn.get("path") or ""):
+                    continue
+                from .. import effects
+                aty = effects._op_ty(b, t["args"][0]) if t["args"] else "?"
+                if aty not in cell_tys:
+                    continue
+                key = "%s|state-write" % fk(b)
+                if (b.key, bb) in accepted:
+                    col.ok(rid, b.loc(bb), key, "write-back of the advanced generator state (part of a draw)")
+                else:
+                    col.violation(rid, key, b.loc(bb), "%s overwrites the persistent generator state (%s) outside a draw: the priority stream is rewound or replaced, later nodes repeat earlier priorities and equal priorities degenerate into chains" % (b.path, fn.get("name")))
 
 
 def _initial_value(I, st, l, g):
